@@ -1,328 +1,434 @@
-import Unsized.Machine
+import Unsized.MachineResize
 /-!
-# Pointer trees of the unsized-type system (C03)
+# Pointer trees of the unsized-type system (Stage C)
 
-`PtrTree` mirrors the Rust `UnsizedType::Ptr` types one-for-one:
+`PtrTree` mirrors the Rust `Ptr` types one-for-one:
 
-| Rust                                                | `PtrTree`                                      |
-|-----------------------------------------------------|------------------------------------------------|
-| `CheckedPtr<T>` (`checked.rs`)                      | `leaf .checked addr`                           |
-| `ListPtr<T, L>` (`list.rs`)                         | `leaf .list addr`                              |
-| `RemainingBytesPtr` (`remaining_bytes.rs`)          | `leaf .rem addr`                               |
-| `UnsizedListPtr<T, C>` (`unsized_list.rs` 370–380)  | `ulist cw addr len lo hi inner pmb`            |
-| generated struct pointer (`struct_impl.rs`)         | `node children` (the `…Sized` part, if any, is the first child: a `CheckedPtr`) |
-| `Set`/`Map`/`UnsizedString`/`UnsizedMap`            | `node [child]` (they are `#[unsized_type]` structs with one field) |
-| `StartPointer<Enum>` (`wrapper.rs` 635–678, `enum_impl.rs`) | `start addr idx payload` (`payload = none` for a unit variant) |
-| `AccountDiscriminant<T>`                            | the tree of `T` (its `Ptr` is `T::Ptr`)        |
+* `leaf addr meta rem`   — `ListPtr` (fat pointer: `meta` = byte length of the elements; also the `list`
+                            field of `Set`/`Map`/`UnsizedString`), `CheckedPtr` (`meta` = `size_of::<T>()`),
+                            `RemainingBytesPtr` (`rem = true`, `meta` = slice length)
+* `ul addr len cw lo hi inner mayBorrow` — `UnsizedListPtr { list_ptr (addr + len metadata), range: lo..hi,
+                            inner_exclusive, possible_mut_borrow }` (`cw = size_of::<C>()`)
+* `node kids`            — the generated struct `Ptr` (sized part first, if any)
+* `start addr variant inner` — `StartPointer<Enum>` (`inner = none` for a unit variant)
 
-Note: a generated struct pointer is NOT wrapped in a `StartPointer` (only enums are): its `start_ptr`
-is the `start_ptr` of its first child.
-
-Addresses are absolute (`base` + offset). The functions are the code as it is now:
-
-* `getPtr`              — `UnsizedType::get_ptr` (same `try_advance` chain as `Codec.extent`, see `getPtr_extent`)
-* `resizeNotify`        — `UnsizedType::resize_notification`, every impl's case split
-* `checkPointers`       — `UnsizedTypePtr::check_pointers` (monotone cursor, half-open `range.contains`,
-                          the inclusive end of `RemainingBytesPtr`, the inner check of `UnsizedListPtr`
-                          restarting at `range.start`, `&&` short-circuit)
-* `checkInnerInitialized` — `UnsizedListPtr::check_inner_initialized`
+`treeOf s v base` is the tree `get_ptr` builds on the canonical bytes of `v` placed at `base`
+(`getPtr_encode` relates it to the byte-level `getPtr`); `chainOf` is the tree after the accessors along
+a path have been taken (`index_exclusive` fills `inner_exclusive` and sets `possible_mut_borrow`).
+`notifyP` is the pointer half of `resize_notification` (the byte half is `Machine.notify`).
 -/
 namespace Unsized.Ptr
-open Common Unsized
+open Common Unsized Unsized.Text Unsized.Machine
 
-/-- Which leaf pointer type. -/
-inductive LeafKind where
-  | checked
-  | list
-  | rem
-  deriving DecidableEq, Repr, Inhabited
-
-/-- A pointer object (`T::Ptr`). -/
 inductive PtrTree where
-  /-- `CheckedPtr` / `ListPtr` / `RemainingBytesPtr`: one address. -/
-  | leaf (k : LeafKind) (addr : Nat)
-  /-- `UnsizedListPtr { list_ptr: (addr, len), inner_exclusive, possible_mut_borrow, range: lo..hi }`;
-  `cw = size_of::<C>()` is the type parameter, kept here because `total_byte_size` needs it. -/
-  | ulist (cw addr len lo hi : Nat) (inner : Option PtrTree) (pmb : Bool)
-  /-- generated struct pointer: the children in field order. -/
+  | leaf (addr mlen : Nat) (rem : Bool)
+  | ul (addr len cw lo hi : Nat) (inner : Option PtrTree) (mayBorrow : Bool)
   | node (kids : List PtrTree)
-  /-- `StartPointer { data: <enum value holding the current variant's pointer>, start }`. -/
-  | start (addr idx : Nat) (payload : Option PtrTree)
+  | start (addr variant : Nat) (inner : Option PtrTree)
   deriving Repr, Inhabited
 
-/-- `Range<usize>` (half-open). -/
-structure Rng where
-  lo : Nat
-  hi : Nat
-  deriving Repr, DecidableEq, Inhabited
-
-/-- `range.contains(&a)`. -/
-def Rng.contains (r : Rng) (a : Nat) : Bool := decide (r.lo ≤ a) && decide (a < r.hi)
-/-- `(range.start..=range.end).contains(&a)` (`remaining_bytes.rs` 59). -/
-def Rng.containsIncl (r : Rng) (a : Nat) : Bool := decide (r.lo ≤ a) && decide (a ≤ r.hi)
-
-/-! ## `get_ptr` -/
-
-def Shape.isUnit : Shape → Bool
-  | .unit => true
-  | _ => false
+/-! ## `get_ptr` on the canonical bytes of a value -/
 
 mutual
-/-- `T::get_ptr(&mut data)` with `data = (base, bs)`: the pointer object and the number of bytes
-consumed. Fresh `UnsizedListPtr`s have `inner_exclusive = None`, `possible_mut_borrow = false`,
-`range = ptr.addr()..data.addr()`. -/
-def getPtr : Shape → List Nat → Nat → Except E (PtrTree × Nat)
-  | .fixed f, bs, base =>
-    match extentFixed f bs with
-    | .error e => .error e
-    | .ok n => .ok (.leaf .checked base, n)
-  | .list e lw, bs, base =>
-    match extentList e.size lw bs with
-    | .error e => .error e
-    | .ok n => .ok (.leaf .list base, n)
-  | .set e lw, bs, base =>
-    match extentList e.size lw bs with
-    | .error e => .error e
-    | .ok n => .ok (.node [.leaf .list base], n)
-  | .map kw v lw, bs, base =>
-    match extentList (kw + v.size) lw bs with
-    | .error e => .error e
-    | .ok n => .ok (.node [.leaf .list base], n)
-  | .str lw, bs, base =>
-    match extentList 1 lw bs with
-    | .error e => .error e
-    | .ok n => .ok (.node [.leaf .list base], n)
-  | .rem, bs, base => .ok (.leaf .rem base, bs.length)
-  | .ulist _, bs, base =>
-    match extentUlist 4 bs with
-    | .error e => .error e
-    | .ok n => .ok (.ulist 4 base (rdLE ((bs.drop 4).take 4)) base (base + n) none false, n)
-  | .umap kw _, bs, base =>
-    match extentUlist (Shape.entryW kw) bs with
-    | .error e => .error e
-    | .ok n =>
-      .ok (.node [.ulist (Shape.entryW kw) base (rdLE ((bs.drop 4).take 4)) base (base + n) none false], n)
-  | .struct sized fs, bs, base =>
-    if sized.isEmpty then
-      match getPtrFields fs bs base with
-      | .error e => .error e
-      | .ok (ks, n) => .ok (.node ks, n)
-    else
-      match extentFixed (.record sized) bs with
-      | .error e => .error e
-      | .ok n =>
-        match getPtrFields fs (bs.drop n) (base + n) with
-        | .error e => .error e
-        | .ok (ks, m) => .ok (.node (.leaf .checked base :: ks), n + m)
-  | .enum ds ps, bs, base =>
-    match bs with
-    | [] => .error .advance
-    | r :: rest =>
-      match getPtrVariant ds ps r rest (base + 1) 0 with
-      | .error e => .error e
-      | .ok (idx, p, n) => .ok (.start base idx p, 1 + n)
-  | .unit, _, _ => .ok (.node [], 0)
-  | .disc d inner, bs, base =>
-    if d.length ≤ bs.length then
-      match getPtr inner (bs.drop d.length) (base + d.length) with
-      | .error e => .error e
-      | .ok (t, n) => .ok (t, d.length + n)
-    else .error .advance
-/-- The generated `Self::Ptr { f1: F1::get_ptr(data)?, f2: F2::get_ptr(data)?, … }`. -/
-def getPtrFields : List Shape → List Nat → Nat → Except E (List PtrTree × Nat)
-  | [], _, _ => .ok ([], 0)
-  | f :: fs, bs, base =>
-    match getPtr f bs base with
-    | .error e => .error e
-    | .ok (t, n) =>
-      match getPtrFields fs (bs.drop n) (base + n) with
-      | .error e => .error e
-      | .ok (ts, m) => .ok (t :: ts, n + m)
-/-- The generated `match repr { D1 => Enum::V1(P1::get_ptr(data)?), … }`; returns the variant index,
-the payload pointer (`none` for a unit variant) and the bytes consumed. -/
-def getPtrVariant : List Nat → List Shape → Nat → List Nat → Nat → Nat →
-    Except E (Nat × Option PtrTree × Nat)
-  | d :: ds, p :: ps, r, bs, base, i =>
-    if r = d then
-      match getPtr p bs base with
-      | .error e => .error e
-      | .ok (t, n) => .ok (i, if Shape.isUnit p then none else some t, n)
-    else getPtrVariant ds ps r bs base (i + 1)
-  | _, _, _, _, _, _ => .error .invalidData
+/-- The pointer tree `get_ptr` returns for the value `v` of shape `s` serialized at `base`. -/
+def treeOf : Shape → Val → Nat → PtrTree
+  | .fixed f, _, b => .leaf b f.size false
+  | .list e _, .seq es, b => .leaf b (e.size * es.length) false
+  | .set e _, .seq es, b => .leaf b (e.size * es.length) false
+  | .map kw f _, .seq es, b => .leaf b ((kw + f.size) * es.length) false
+  | .str _, .bytes l, b => .leaf b (1 * l.length) false
+  | .rem, .bytes l, b => .leaf b l.length true
+  | .ulist e, .useq vs, b => .ul b vs.length 4 b (b + size (.ulist e) (.useq vs)) none false
+  | .umap kw e, .umap es, b =>
+      .ul b es.length (Shape.entryW kw) b (b + size (.umap kw e) (.umap es)) none false
+  | .struct sized fs, .record _ vs, b =>
+      if sized.isEmpty then .node (treesOf fs vs b)
+      else .node (.leaf b (Fixed.sizeList sized) false :: treesOf fs vs (b + Fixed.sizeList sized))
+  | .enum _ ps, .variant i pl, b => .start b i (variantTree ps i pl (b + 1))
+  | _, _, b => .leaf b 0 false
+def treesOf : List Shape → List Val → Nat → List PtrTree
+  | f :: fs, v :: vs, b => treeOf f v b :: treesOf fs vs (b + size f v)
+  | _, _, _ => []
+def variantTree : List Shape → Nat → Val → Nat → Option PtrTree
+  | .unit :: _, 0, _, _ => none
+  | p :: _, 0, v, b => some (treeOf p v b)
+  | _ :: ps, i + 1, v, b => variantTree ps i v b
+  | [], _, _, _ => none
 end
 
-/-! ## `resize_notification` -/
-
-/-- `ptr.wrapping_byte_offset(change)` / `usize::wrapping_add_signed(change)` for `change = ±amt`. -/
-def wrapOff (neg : Bool) (amt a : Nat) : Nat :=
-  if neg then (if amt ≤ a then a - amt else a + Shape.usizeLim - amt)
-  else (a + amt) % Shape.usizeLim
+/-! ## `resize_notification` on pointers -/
 
 mutual
-/-- `T::resize_notification(self_mut, source_ptr, change)`; `usz a` = the `unsized_size` field read
-through a list pointer at address `a`. `none` = `Err(UnsizedUnexpected)`.
-
-* leaf (`checked.rs` 99–109, `list.rs` 400–410): `if source < self { self += change }`;
-  `RemainingBytes` (`remaining_bytes.rs` 92–109): `Less` → shift, `Equal` → nothing, `Greater` → error.
-* `UnsizedList` (`unsized_list.rs` 625–674): the four-way split, including the forwarding to the
-  cached inner pointer when the change happened before the list (fix 3706038).
-* struct: every child in order (`struct_impl.rs` 672–675); enum: `StartPointer::handle_resize_notification`
-  then the current variant (`enum_impl.rs` 487–497). -/
-def resizeNotify (usz : Nat → Nat) (src : Nat) (neg : Bool) (amt : Nat) : PtrTree → Option PtrTree
-  | .leaf .rem a =>
-    if src < a then some (.leaf .rem (wrapOff neg amt a))
-    else if src = a then some (.leaf .rem a)
-    else none
-  | .leaf k a => some (.leaf k (if src < a then wrapOff neg amt a else a))
-  | .ulist cw a len lo hi inner pmb =>
+/-- Pointer half of `UnsizedType::resize_notification(self_mut, source_ptr, change)`; `bs` = the bytes at
+the time of the broadcast (after the move, before any header rewrite). -/
+def notifyP : PtrTree → List Nat → Nat → Bool → Nat → Except Err PtrTree
+  | .leaf a m rem, _, src, neg, amt =>
+    if src < a then .ok (.leaf (applyDelta neg amt a) m rem)
+    else if rem && decide (a < src) then .error .parse   -- `UnsizedUnexpected`: resize after RemainingBytes
+    else .ok (.leaf a m rem)
+  | .ul a len cw lo hi inner mb, bs, src, neg, amt =>
     if src < a then
-      match notifyO usz src neg amt inner with
-      | none => none
-      | some inner' =>
-        some (.ulist cw (wrapOff neg amt a) len (wrapOff neg amt lo) (wrapOff neg amt hi) inner' pmb)
-    else if src = a then some (.ulist cw a len lo (wrapOff neg amt hi) inner pmb)
-    else if src < a + (8 + len * cw + 4 + usz a) then
+      -- the change happened before me; a (possibly stale) inner pointer lives inside me and moves along
+      match notifyPo inner bs src neg amt with
+      | .error e => .error e
+      | .ok inner' =>
+        .ok (.ul (applyDelta neg amt a) len cw (applyDelta neg amt lo) (applyDelta neg amt hi) inner' mb)
+    else if src = a then .ok (.ul a len cw lo (applyDelta neg amt hi) inner mb)
+    else if src < a + (12 + len * cw + rd32 bs a) then
       match inner with
-      | none => none
+      | none => .error .parse                            -- `UnsizedUnexpected`: inner Mut not present
       | some t =>
-        match resizeNotify usz src neg amt t with
-        | none => none
-        | some t' => some (.ulist cw a len lo (wrapOff neg amt hi) (some t') pmb)
-    else some (.ulist cw a len lo hi inner pmb)
-  | .node ks =>
-    match notifyL usz src neg amt ks with
-    | none => none
-    | some ks' => some (.node ks')
-  | .start a idx p =>
-    match notifyO usz src neg amt p with
-    | none => none
-    | some p' => some (.start (if src < a then wrapOff neg amt a else a) idx p')
-def notifyO (usz : Nat → Nat) (src : Nat) (neg : Bool) (amt : Nat) : Option PtrTree → Option (Option PtrTree)
-  | none => some none
-  | some t =>
-    match resizeNotify usz src neg amt t with
-    | none => none
-    | some t' => some (some t')
-def notifyL (usz : Nat → Nat) (src : Nat) (neg : Bool) (amt : Nat) : List PtrTree → Option (List PtrTree)
-  | [] => some []
-  | t :: ts =>
-    match resizeNotify usz src neg amt t with
-    | none => none
-    | some t' =>
-      match notifyL usz src neg amt ts with
-      | none => none
-      | some ts' => some (t' :: ts')
+        match notifyP t bs src neg amt with
+        | .error e => .error e
+        | .ok t' => .ok (.ul a len cw lo (applyDelta neg amt hi) (some t') mb)
+    else .ok (.ul a len cw lo hi inner mb)
+  | .node ks, bs, src, neg, amt =>
+    match notifyPs ks bs src neg amt with
+    | .error e => .error e
+    | .ok ks' => .ok (.node ks')
+  | .start a var inner, bs, src, neg, amt =>
+    match notifyPo inner bs src neg amt with
+    | .error e => .error e
+    | .ok inner' => .ok (.start (if src < a then applyDelta neg amt a else a) var inner')
+def notifyPs : List PtrTree → List Nat → Nat → Bool → Nat → Except Err (List PtrTree)
+  | [], _, _, _, _ => .ok []
+  | t :: ts, bs, src, neg, amt =>
+    match notifyP t bs src neg amt with
+    | .error e => .error e
+    | .ok t' => match notifyPs ts bs src neg amt with
+      | .error e => .error e
+      | .ok ts' => .ok (t' :: ts')
+def notifyPo : Option PtrTree → List Nat → Nat → Bool → Nat → Except Err (Option PtrTree)
+  | none, _, _, _, _ => .ok none
+  | some t, bs, src, neg, amt =>
+    match notifyP t bs src neg amt with
+    | .error e => .error e
+    | .ok t' => .ok (some t')
 end
 
 /-! ## `check_pointers` -/
 
 mutual
-/-- `ptr.check_pointers(&range, &mut cursor)`: the verdict and the new cursor.
-
-* leaf (`checked.rs` 54–59, `list.rs` 339–344): `is_advanced = addr >= *cursor; *cursor = addr;
-  is_advanced && range.contains(&addr)`; `RemainingBytesPtr` uses `range.start..=range.end`.
-* `UnsizedListPtr` (`unsized_list.rs` 511–521): same on `list_ptr`, `&&` the inner pointer checked with a
-  FRESH cursor `range.start` (the caller's `range`, not the list's own).
-* struct: `c1.check(..) && c2.check(..) && … && true` (short-circuit: after a failure the remaining
-  children are not visited and the cursor stays).
-* `StartPointer` (`wrapper.rs` 649–654): `is_advanced && range.contains(&start) && data.check(..)`; the
-  enum value itself dispatches to the current variant, `true` for a unit variant. -/
-def checkPointers (r : Rng) : PtrTree → Nat → Bool × Nat
-  | .leaf k a, cur =>
-    (decide (cur ≤ a) && (if k = .rem then r.containsIncl a else r.contains a), a)
-  | .ulist _ a _ _ _ inner _, cur =>
-    (decide (cur ≤ a) && r.contains a && checkO r inner, a)
-  | .node ks, cur => checkL r ks cur
-  | .start a _ p, cur =>
-    if decide (cur ≤ a) && r.contains a then
-      match p with
-      | none => (true, a)
-      | some t => checkPointers r t a
-    else (false, a)
-/-- `if let Some(inner) = &self.inner_exclusive { inner.check_pointers(range, &mut { range.start }) } else { true }` -/
-def checkO (r : Rng) : Option PtrTree → Bool
-  | none => true
-  | some t => (checkPointers r t r.lo).1
-def checkL (r : Rng) : List PtrTree → Nat → Bool × Nat
-  | [], cur => (true, cur)
-  | t :: ts, cur =>
-    match checkPointers r t cur with
-    | (true, c) => checkL r ts c
-    | (false, c) => (false, c)
+/-- `UnsizedTypePtr::check_pointers(range, cursor)`: the verdict and the new cursor. -/
+def checkP : PtrTree → (lo hi cursor : Nat) → Bool × Nat
+  | .leaf a _ rem, lo, hi, cur =>
+    (decide (cur ≤ a) && decide (lo ≤ a) && (if rem then decide (a ≤ hi) else decide (a < hi)), a)
+  | .ul a _ _ _ _ inner _, lo, hi, cur =>
+    (decide (cur ≤ a) && decide (lo ≤ a) && decide (a < hi) && checkPo inner lo hi, a)
+  | .node ks, lo, hi, cur => checkPs ks lo hi cur
+  | .start a _ inner, lo, hi, cur =>
+    match inner with
+    | none => (decide (cur ≤ a) && decide (lo ≤ a) && decide (a < hi), a)
+    | some t =>
+      let r := checkP t lo hi a
+      (decide (cur ≤ a) && decide (lo ≤ a) && decide (a < hi) && r.1, r.2)
+def checkPs : List PtrTree → (lo hi cursor : Nat) → Bool × Nat
+  | [], _, _, cur => (true, cur)
+  | t :: ts, lo, hi, cur =>
+    let r := checkP t lo hi cur
+    let r2 := checkPs ts lo hi r.2
+    (r.1 && r2.1, r2.2)
+def checkPo : Option PtrTree → (lo hi : Nat) → Bool
+  | none, _, _ => true
+  | some t, lo, hi => (checkP t lo hi lo).1
 end
 
-/-- The check of `ExclusiveTopDrop::drop` / the `debug_assert!`s of `add_bytes` / `remove_bytes`:
-`top_mut.check_pointers(&range, &mut range.start)`. `false` = panic. -/
-def checkTop (r : Rng) (t : PtrTree) : Bool := (checkPointers r t r.lo).1
 
-/-- `UnsizedListPtr::check_inner_initialized` (`unsized_list.rs` 387–398): `false` = panic
-("Inner pointer invariant violated on UnsizedList. Was I `mem::swapped`?"). Uses the list's OWN range. -/
-def checkInnerInitialized : PtrTree → Bool
-  | .ulist _ _ _ lo hi inner pmb =>
-    if pmb then
-      match inner with
-      | none => true
-      | some t => (checkPointers ⟨lo, hi⟩ t lo).1
-    else true
-  | _ => true
+/-! ## The tree after taking the accessors along a path -/
 
-/-! ## Addresses, paths inside a pointer tree, replacing a subtree -/
+/-- The pointer tree of the value `v` at `base` after the chain of child accessors along `p` has been
+taken from a fresh borrow, with the tree `T` sitting at the end of the chain. Taking an element accessor of
+an `UnsizedList`/`UnsizedMap` stores the element's pointer in `inner_exclusive` and sets
+`possible_mut_borrow`; field and variant accessors point into the parent's tree. -/
+def chainWith : Shape → Val → Nat → List Step → PtrTree → PtrTree
+  | _, _, _, [], T => T
+  | s, v, b, st :: p, T =>
+    match resolve1 s v st with
+    | .error _ => treeOf s v b
+    | .ok (t, u) =>
+      let child := chainWith t u (b + (stepPre s v st 0).length) p T
+      match s, v, st with
+      | .struct sized fs, .record _ vs, .field i =>
+        if sized.isEmpty then .node ((treesOf fs vs b).set i child)
+        else .node (.leaf b (Fixed.sizeList sized) false :: (treesOf fs vs (b + Fixed.sizeList sized)).set i child)
+      | .ulist e, .useq vs, .elem _ =>
+        .ul b vs.length 4 b (b + size (.ulist e) (.useq vs)) (some child) true
+      | .umap kw e, .umap es, .elem _ =>
+        .ul b es.length (Shape.entryW kw) b (b + size (.umap kw e) (.umap es)) (some child) true
+      | .enum _ _, .variant idx _, .payload => .start b idx (some child)
+      | s, v, _ => treeOf s v b
 
-mutual
-/-- Every address `check_pointers` looks at (own pointer and, for lists, the cached inner pointer). -/
-def addrs : PtrTree → List Nat
-  | .leaf _ a => [a]
-  | .ulist _ a _ _ _ inner _ => a :: addrsO inner
-  | .node ks => addrsL ks
-  | .start a _ p => a :: addrsO p
-def addrsO : Option PtrTree → List Nat
-  | none => []
-  | some t => addrs t
-def addrsL : List PtrTree → List Nat
-  | [] => []
-  | t :: ts => addrs t ++ addrsL ts
-end
+/-- The fresh chain: every pointer on it is what `get_ptr` gives on the current bytes. -/
+def chainOf (s : Shape) (v : Val) (b : Nat) (p : List Step) : PtrTree :=
+  match resolve s v p with
+  | .ok (t, u) => chainWith s v b p (treeOf t u (b + offsetOf s v p))
+  | .error _ => treeOf s v b
 
-/-- One step inside a pointer object. -/
-inductive TStep where
-  /-- child `i` of a struct pointer -/
-  | kid (i : Nat)
-  /-- the `inner_exclusive` box of an `UnsizedListPtr` -/
-  | inner
-  /-- the payload pointer of the current enum variant -/
-  | payload
-  deriving DecidableEq, Repr, Inhabited
 
-/-- The sub-pointer at a tree path. -/
-def subtreeAt : PtrTree → List TStep → Option PtrTree
-  | t, [] => some t
-  | .node ks, .kid i :: p =>
-    match ks[i]? with
-    | some k => subtreeAt k p
-    | none => none
-  | .ulist _ _ _ _ _ (some t) _, .inner :: p => subtreeAt t p
-  | .start _ _ (some t), .payload :: p => subtreeAt t p
-  | _, _ => none
+/-! ## Notifications and fresh trees -/
 
-/-- `mem::swap`/overwrite of the sub-pointer at a tree path: the tree with that sub-pointer replaced
-by `q` (`none` if the path does not exist). -/
-def replaceAt : PtrTree → List TStep → PtrTree → Option PtrTree
-  | _, [], q => some q
-  | .node ks, .kid i :: p, q =>
-    match ks[i]? with
-    | some k =>
-      match replaceAt k p q with
-      | some k' => some (.node (ks.set i k'))
-      | none => none
-    | none => none
-  | .ulist cw a len lo hi (some t) pmb, .inner :: p, q =>
-    match replaceAt t p q with
-    | some t' => some (.ulist cw a len lo hi (some t') pmb)
-    | none => none
-  | .start a idx (some t), .payload :: p, q =>
-    match replaceAt t p q with
-    | some t' => some (.start a idx (some t'))
-    | none => none
-  | _, _, _ => none
+theorem appD_add (neg : Bool) (amt b k : Nat) (h : neg = true → amt ≤ b) :
+    applyDelta neg amt (b + k) = applyDelta neg amt b + k := by
+  unfold applyDelta; cases neg
+  · simp; omega
+  · have := h rfl; simp; omega
+
+theorem appD_gt (neg : Bool) (amt b src : Nat) (h : neg = true → amt ≤ b) (hs : src < b) :
+    src < b + 0 ∧ True := ⟨by omega, trivial⟩
+
+/-- A value that lies entirely AFTER the source pointer: every pointer in its tree shifts — the result is
+the fresh tree at the shifted base. -/
+def AfterOK (s : Shape) : Prop :=
+  ∀ (v : Val) (b : Nat) (bs : List Nat) (src : Nat) (neg : Bool) (amt : Nat), src < b → (neg = true → amt ≤ b) →
+    notifyP (treeOf s v b) bs src neg amt = .ok (treeOf s v (applyDelta neg amt b))
+
+theorem after_trees (fs : List Shape) (ih : ∀ f ∈ fs, AfterOK f) :
+    ∀ (vs : List Val) (b : Nat) (bs : List Nat) (src : Nat) (neg : Bool) (amt : Nat), src < b →
+      (neg = true → amt ≤ b) →
+      notifyPs (treesOf fs vs b) bs src neg amt = .ok (treesOf fs vs (applyDelta neg amt b)) := by
+  induction fs with
+  | nil => intro vs b bs src neg amt _ _; simp [treesOf, notifyPs]
+  | cons f fs ihf =>
+    intro vs b bs src neg amt hs hn
+    cases vs with
+    | nil => simp [treesOf, notifyPs]
+    | cons v vs =>
+      simp only [treesOf, notifyPs]
+      rw [ih f List.mem_cons_self v b bs src neg amt hs hn]
+      simp only []
+      rw [ihf (fun g hg => ih g (List.mem_cons_of_mem _ hg)) vs (b + size f v) bs src neg amt (by omega)
+        (fun h => by have := hn h; omega)]
+      simp only []
+      rw [appD_add neg amt b _ hn]
+
+theorem after_variant (ps : List Shape) (ih : ∀ p ∈ ps, AfterOK p) :
+    ∀ (i : Nat) (v : Val) (b : Nat) (bs : List Nat) (src : Nat) (neg : Bool) (amt : Nat), src < b →
+      (neg = true → amt ≤ b) →
+      notifyPo (variantTree ps i v b) bs src neg amt = .ok (variantTree ps i v (applyDelta neg amt b)) := by
+  induction ps with
+  | nil => intro i v b bs src neg amt _ _; simp [variantTree, notifyPo]
+  | cons q qs ihq =>
+    intro i v b bs src neg amt hs hn
+    cases i with
+    | zero =>
+      cases q <;> simp only [variantTree, notifyPo] <;>
+        first
+        | rfl
+        | (rw [ih _ List.mem_cons_self v b bs src neg amt hs hn])
+    | succ i =>
+      simp only [variantTree]
+      exact ihq (fun g hg => ih g (List.mem_cons_of_mem _ hg)) i v b bs src neg amt hs hn
+
+theorem after_all (s : Shape) : AfterOK s := by
+  induction s using Shape.induct' with
+  | struct sized fs ih =>
+    intro v b bs src neg amt hs hn
+    cases v <;> simp only [treeOf, notifyP, hs, if_true]
+    rename_i sz vs
+    by_cases he : sized.isEmpty = true
+    · simp only [he, if_true, notifyP]
+      rw [after_trees fs ih vs b bs src neg amt hs hn]
+    · simp only [he, notifyP, notifyPs, hs, if_true, Bool.false_eq_true, if_false]
+      rw [after_trees fs ih vs (b + Fixed.sizeList sized) bs src neg amt (by omega) (fun h => by have := hn h; omega)]
+      simp only []
+      rw [appD_add neg amt b _ hn]
+  | enum ds ps ih =>
+    intro v b bs src neg amt hs hn
+    cases v <;> simp only [treeOf, notifyP, hs, if_true]
+    rename_i i pl
+    rw [after_variant ps ih i pl (b + 1) bs src neg amt (by omega) (fun h => by have := hn h; omega)]
+    simp only []
+    rw [appD_add neg amt b 1 hn]
+  | ulist e ih =>
+    intro v b bs src neg amt hs hn
+    cases v <;> simp only [treeOf, notifyP, notifyPo, hs, if_true]
+    rw [appD_add neg amt b _ hn]
+  | umap kw e ih =>
+    intro v b bs src neg amt hs hn
+    cases v <;> simp only [treeOf, notifyP, notifyPo, hs, if_true]
+    rw [appD_add neg amt b _ hn]
+  | _ =>
+    intro v b bs src neg amt hs hn
+    cases v <;> simp only [treeOf, notifyP, hs, if_true]
+
+
+/-- A (non-ZST) value that lies entirely BEFORE the source pointer, its bytes intact: nothing in its
+tree moves (an `UnsizedList` sibling sees "the change happened after me"). -/
+def BeforeOK (s : Shape) : Prop :=
+  ∀ top ie, Shape.okAux top ie s = true → s.zst = false → ∀ v, valid s v = true → fits s v = true →
+    ∀ (pre rest : List Nat) (b : Nat), b = pre.length → ∀ (src : Nat), b + size s v ≤ src →
+    ∀ (neg : Bool) (amt : Nat),
+      notifyP (treeOf s v b) (pre ++ encode s v ++ rest) src neg amt = .ok (treeOf s v b)
+
+theorem before_trees (fs : List Shape) (ih : ∀ f ∈ fs, BeforeOK f) :
+    Shape.okFields fs = true → Shape.zstLast false fs = false → ∀ vs, validFields fs vs = true →
+      fitsFields fs vs = true → ∀ (pre rest : List Nat) (b : Nat), b = pre.length → ∀ (src : Nat),
+      b + sizeFields fs vs ≤ src → ∀ (neg : Bool) (amt : Nat),
+      notifyPs (treesOf fs vs b) (pre ++ encodeFields fs vs ++ rest) src neg amt = .ok (treesOf fs vs b) := by
+  induction fs with
+  | nil => intro _ _ vs _ _ pre rest b _ src _ neg amt; cases vs <;> simp [treesOf, notifyPs]
+  | cons f fs ihf =>
+    intro hok hz vs hv hf pre rest b hb src hs neg amt
+    cases vs with
+    | nil => simp [validFields] at hv
+    | cons x xs =>
+      simp only [validFields, fitsFields, Bool.and_eq_true] at hv hf
+      simp only [sizeFields] at hs
+      -- `f` is not ZST: either not last, or last of a non-ZST struct
+      have hfo : Shape.okAux false false f = true ∧ f.zst = false ∧ (fs ≠ [] → Shape.okFields fs = true ∧ Shape.zstLast false fs = false) := by
+        cases fs with
+        | nil => exact ⟨by simpa [Shape.okFields] using hok, by simpa [Shape.zstLast] using hz, fun h => absurd rfl h⟩
+        | cons g gs =>
+          obtain ⟨h1, h2, h3⟩ := okFields_cons2 f g gs hok
+          rw [zstLast_cons_cons] at hz
+          exact ⟨h1, h2, fun _ => ⟨h3, hz⟩⟩
+      simp only [treesOf, notifyPs, encodeFields]
+      have e1 : pre ++ (encode f x ++ encodeFields fs xs) ++ rest = pre ++ encode f x ++ (encodeFields fs xs ++ rest) := by
+        simp [List.append_assoc]
+      rw [e1, ih f List.mem_cons_self false false hfo.1 hfo.2.1 x hv.1 hf.1 pre _ b hb src (by omega) neg amt]
+      simp only []
+      by_cases hfs : fs = []
+      · subst hfs; cases xs <;> simp [treesOf, notifyPs]
+      · obtain ⟨h3, h4⟩ := hfo.2.2 hfs
+        have e2 : pre ++ encode f x ++ (encodeFields fs xs ++ rest) = (pre ++ encode f x) ++ encodeFields fs xs ++ rest := by
+          simp [List.append_assoc]
+        rw [e2, ihf (fun g hg => ih g (List.mem_cons_of_mem _ hg)) h3 h4 xs hv.2 hf.2 (pre ++ encode f x) rest
+          (b + size f x) (by simp [hb, encode_size_all f x hv.1]) src (by omega) neg amt]
+
+
+theorem variantTree_unit (ps : List Shape) (i : Nat) (pl : Val) (b : Nat) (ht : ps[i]? = some .unit) :
+    variantTree ps i pl b = none := by
+  induction i generalizing ps with
+  | zero => cases ps with
+    | nil => simp at ht
+    | cons p ps => simp at ht; subst ht; rfl
+  | succ i ih => cases ps with
+    | nil => simp at ht
+    | cons p ps => simp only [variantTree]; exact ih ps (by simpa using ht)
+
+theorem variantTree_some (ps : List Shape) (i : Nat) (t : Shape) (pl : Val) (b : Nat) (ht : ps[i]? = some t)
+    (hu : t ≠ .unit) : variantTree ps i pl b = some (treeOf t pl b) := by
+  induction i generalizing ps with
+  | zero => cases ps with
+    | nil => simp at ht
+    | cons p ps => simp at ht; subst ht; cases p <;> first | rfl | exact absurd rfl hu
+  | succ i ih => cases ps with
+    | nil => simp at ht
+    | cons p ps => simp only [variantTree]; exact ih ps (by simpa using ht)
+
+theorem before_all (s : Shape) : BeforeOK s := by
+  induction s using Shape.induct' with
+  | struct sized fs ih =>
+    intro top ie hok hz v hv hf pre rest b hb src hs neg amt
+    cases v <;> simp only [valid, Bool.false_eq_true] at hv
+    rename_i sz vs
+    simp only [Shape.okAux, Bool.and_eq_true] at hok
+    simp only [Bool.and_eq_true, beq_iff_eq, decide_eq_true_eq] at hv
+    simp only [fits] at hf
+    simp only [Shape.zst] at hz
+    simp only [size] at hs
+    simp only [treeOf, encode]
+    have e1 : pre ++ (sz ++ encodeFields fs vs) ++ rest = (pre ++ sz) ++ encodeFields fs vs ++ rest := by
+      simp [List.append_assoc]
+    by_cases he : sized.isEmpty = true
+    · have hs0 : Fixed.sizeList sized = 0 := by
+        cases sized with
+        | nil => rfl
+        | cons _ _ => simp at he
+      simp only [he, if_true, notifyP]
+      have hsz : sz = [] := by cases sz with | nil => rfl | cons _ _ => simp [hs0] at hv
+      subst hsz
+      rw [e1, List.append_nil, before_trees fs ih hok.2 hz vs hv.2 hf pre rest b hb src (by omega) neg amt]
+    · simp only [he, Bool.false_eq_true, if_false, notifyP, notifyPs]
+      have h1 : ¬ src < b := by omega
+      simp only [h1, if_false, Bool.false_and, Bool.false_eq_true]
+      rw [e1, before_trees fs ih hok.2 hz vs hv.2 hf (pre ++ sz) rest (b + Fixed.sizeList sized)
+        (by simp [hb, hv.1.1.1]) src (by omega) neg amt]
+  | enum ds ps ih =>
+    intro top ie hok hz v hv hf pre rest b hb src hs neg amt
+    cases v <;> simp only [valid, Bool.false_eq_true] at hv
+    rename_i i pl
+    simp only [Shape.okAux, Bool.and_eq_true, beq_iff_eq, decide_eq_true_eq] at hok
+    simp only [Bool.and_eq_true, decide_eq_true_eq] at hv
+    simp only [fits] at hf
+    simp only [Shape.zst] at hz
+    obtain ⟨t, ht, hvt⟩ := validVariant_get ps i pl hv.2
+    have hd : ds[i]? = some ds[i] := List.getElem?_eq_getElem hv.1
+    have hst : sizeVariant ps i pl = size t pl := by
+      have : ∀ (qs : List Shape) (j : Nat), qs[j]? = some t → sizeVariant qs j pl = size t pl := by
+        intro qs j
+        induction j generalizing qs with
+        | zero => intro h; cases qs with
+          | nil => simp at h
+          | cons q qs => simp at h; subst h; rfl
+        | succ j ihj => intro h; cases qs with
+          | nil => simp at h
+          | cons q qs => simp only [sizeVariant]; exact ihj qs (by simpa using h)
+      exact this ps i ht
+    simp only [size, hst] at hs
+    simp only [treeOf, encode, notifyP]
+    rw [encodeVariant_get ds ps i pl _ t hd ht]
+    have h1 : ¬ src < b := by omega
+    by_cases hu : t = .unit
+    · subst hu
+      rw [variantTree_unit ps i pl (b + 1) ht]
+      simp [notifyPo, h1]
+    · rw [variantTree_some ps i t pl (b + 1) ht hu]
+      simp only [notifyPo]
+      have e1 : ∀ E : List Nat, pre ++ ds[i] :: E ++ rest = (pre ++ [ds[i]]) ++ E ++ rest := by
+        intro E; simp [List.append_assoc]
+      rw [e1, ih _ (List.mem_of_getElem? ht) false true (okPayloads_get ps i _ ht hok.2)
+        (zstAny_false_mem ps hz _ (List.mem_of_getElem? ht)) pl hvt (fitsVariant_get ps i pl _ ht hf)
+        (pre ++ [ds[i]]) rest (b + 1) (by simp [hb]) src (by omega) neg amt]
+      simp [h1]
+  | ulist e ih =>
+    intro top ie hok hz v hv hf pre rest b hb src hs neg amt
+    cases v <;> simp only [valid, Bool.false_eq_true] at hv
+    rename_i vs
+    simp only [fits, Bool.and_eq_true, decide_eq_true_eq] at hf
+    have hkeys : ∀ k ∈ vs.map (fun _ => ([] : List Nat)), k.length = 0 := by
+      intro k hk; obtain ⟨_, _, rfl⟩ := List.mem_map.1 hk; rfl
+    have hsizes := map_encode_length e vs hv
+    have husz : rd32 (pre ++ encode (.ulist e) (.useq vs) ++ rest) b = (vs.map (size e)).sum := by
+      rw [encode_ulist_uBytes, uBytes, ← hsizes]
+      have e1 : pre ++ (uHdrOf (vs.map fun _ => []) ((vs.map (encode e)).map List.length)
+          ++ (vs.map (encode e)).flatten) ++ rest
+          = pre ++ uHdrOf (vs.map fun _ => []) ((vs.map (encode e)).map List.length)
+            ++ ((vs.map (encode e)).flatten ++ rest) := by simp [List.append_assoc]
+      rw [e1, rd32_uHdr_usz _ _ pre _ b hb (by rw [hsizes]; exact hf.1.2)]
+    simp only [size] at hs
+    simp only [treeOf, notifyP, husz]
+    have h1 : ¬ src < b := by omega
+    have h2 : src ≠ b := by omega
+    have h3 : ¬ src < b + (12 + vs.length * 4 + (vs.map (size e)).sum) := by omega
+    simp only [h1, h2, h3, if_false]
+  | umap kw e ih =>
+    intro top ie hok hz v hv hf pre rest b hb src hs neg amt
+    cases v <;> simp only [valid, Bool.false_eq_true] at hv
+    rename_i es
+    simp only [Bool.and_eq_true] at hv
+    simp only [fits, Bool.and_eq_true, decide_eq_true_eq] at hf
+    have hvall : es.all (fun kv => valid e kv.2) = true := by
+      rw [List.all_eq_true] at hv ⊢
+      intro x hx'; have := hv.1 x hx'; simp only [Bool.and_eq_true] at this; exact this.2
+    have hsizes := map_encode_length_kv e es hvall
+    have husz : rd32 (pre ++ encode (.umap kw e) (.umap es) ++ rest) b = (es.map (fun kv => size e kv.2)).sum := by
+      rw [encode_umap_uBytes, uBytes, ← hsizes]
+      have e1 : pre ++ (uHdrOf (es.map (·.1)) ((es.map fun kv => encode e kv.2).map List.length)
+          ++ (es.map fun kv => encode e kv.2).flatten) ++ rest
+          = pre ++ uHdrOf (es.map (·.1)) ((es.map fun kv => encode e kv.2).map List.length)
+            ++ ((es.map fun kv => encode e kv.2).flatten ++ rest) := by simp [List.append_assoc]
+      rw [e1, rd32_uHdr_usz _ _ pre _ b hb (by rw [hsizes]; exact hf.1.2)]
+    simp only [size] at hs
+    simp only [treeOf, notifyP, husz]
+    have h1 : ¬ src < b := by omega
+    have h2 : src ≠ b := by omega
+    have h3 : ¬ src < b + (12 + es.length * Shape.entryW kw + (es.map (fun kv => size e kv.2)).sum) := by omega
+    simp only [h1, h2, h3, if_false]
+  | rem => intro top ie hok hz; simp [Shape.zst] at hz
+  | _ =>
+    intro top ie hok hz v hv hf pre rest b hb src hs neg amt
+    have h1 : ¬ src < b := by omega
+    cases v <;> simp only [treeOf, notifyP, h1, if_false, Bool.false_and, Bool.false_eq_true]
 
 end Unsized.Ptr
